@@ -1,6 +1,6 @@
 /-
 C14 driver.  Reads module-graph cases + evaluation requests (the text the Rust harness `c14` reads) and
-prints what the model M (`model`), the repaired model (`fixed`) or the specification S (`spec`) says each
+prints what the model M (`model`), a variant of it (`variant:<flags>`, see `main`) or the specification S (`spec`) says each
 request yields: status, the binding of every observed name, every instantiated module's view of its
 names, and the per-module instantiation counters.  `elab` echoes the input with the `view` lines of
 every module (the names S makes visible inside it) inserted.
